@@ -527,6 +527,115 @@ func (e *Eng) verifyFunc(fc *FuncContract, refute bool, unrollK int) (res *FuncR
 		body := rc.evalInt(rs.Body)
 		vc.DefineRec("rs_"+rs.Name, ps, body)
 	}
+	// state-dependent recursive spec functions: sr_f(M, k) reads the memory it is given. Each
+	// comes with a frame lemma - two memories that agree on every cell the body reads for the
+	// indices 1..k give the same value - which is proved here by induction on k (obligations
+	// staterec.f.base / staterec.f.step) and then assumed.
+	tr.stateRecs = map[string]*SpecFunc{}
+	for _, rs := range fc.StateRecs {
+		tr.stateRecs[rs.Name] = rs
+	}
+	for _, rs := range fc.StateRecs {
+		mp := Sym("M!rec", SMem)
+		rc := *ctx
+		rc.clamp = true
+		rc.st = State{Reach: tTrue, Mem: mp, Alloc: nil, Locks: tr.entry.Locks, Ghost: tr.entry.Ghost}
+		rc.old = rc.st
+		rc.bound = map[string]SV{}
+		// formal parameters: leaves of the typed ones, then the index
+		var formals []*Term
+		for _, p := range rs.Params {
+			if te := rs.Like[p]; te != nil {
+				proto := ctx.eval(te)
+				if proto.T == nil {
+					panic(specErr(rs.Pos + ": cannot type staterec parameter " + p))
+				}
+				sv := SV{T: proto.T}
+				for i, lf := range layoutOf(proto.T).Leaves {
+					srt := SInt
+					if lf.K == LBool {
+						srt = SBool
+					}
+					f := Sym(fmt.Sprintf("%s_%d!rec", p, i), srt)
+					formals = append(formals, f)
+					sv.L = append(sv.L, f)
+				}
+				rc.bound[p] = sv
+			} else {
+				f := Sym(p+"!rec", SInt)
+				formals = append(formals, f)
+				rc.bound[p] = mathInt(f)
+			}
+		}
+		kp := formals[len(formals)-1]
+		body := rc.evalInt(rs.Body)
+		fun := "sr_" + rs.Name
+		vc.DefineRec(fun, append([]*Term{mp}, formals...), body)
+		if refute {
+			continue
+		}
+		// cells read by the body: (select (select M!rec o) i)
+		var cells []*Term
+		seenC := map[string]bool{}
+		var walk func(t *Term)
+		walk = func(t *Term) {
+			if t.Op == "select" && len(t.Args) == 2 && t.Args[0].Op == "select" && t.Args[0].Args[0].Op == "sym" && t.Args[0].Args[0].Name == mp.Name {
+				if !seenC[t.Key()] {
+					seenC[t.Key()] = true
+					cells = append(cells, t)
+				}
+			}
+			for _, a := range t.Args {
+				walk(a)
+			}
+		}
+		walk(body)
+		// instance of the formals for one side: memory m, fresh/bound parameter terms ps, index j
+		inst := func(c *Term, m *Term, ps []*Term, j *Term) *Term {
+			sub := map[string]*Term{mp.Name: m, kp.Name: j}
+			for i, f := range formals[:len(formals)-1] {
+				sub[f.Name] = ps[i]
+			}
+			return substSyms(c, sub)
+		}
+		agree := func(m1 *Term, p1 []*Term, m2 *Term, p2 []*Term, j *Term) *Term {
+			var cs []*Term
+			for _, c := range cells {
+				cs = append(cs, Eq(inst(c, m1, p1, j), inst(c, m2, p2, j)))
+			}
+			return And(cs...)
+		}
+		app := func(m *Term, ps []*Term, k *Term) *Term {
+			return App(fun, SInt, append(append([]*Term{m}, ps...), k)...)
+		}
+		mkParams := func(tag string, bound bool) []*Term {
+			var out []*Term
+			for i, f := range formals[:len(formals)-1] {
+				nm := fmt.Sprintf("p%d_%s", i, tag)
+				if bound {
+					out = append(out, Sym(nm+"!q", f.Sort))
+				} else {
+					out = append(out, vc.Fresh(nm, f.Sort))
+				}
+			}
+			return out
+		}
+		m1, m2 := vc.Fresh("M1!fr", SMem), vc.Fresh("M2!fr", SMem)
+		p1, p2 := mkParams("a", false), mkParams("b", false)
+		k0 := vc.Fresh("k!fr", SInt)
+		jq := Sym("j!q", SInt)
+		vc.Oblige("staterec."+rs.Name, "base", Implies(Le(k0, Int(0)), Eq(app(m1, p1, k0), app(m2, p2, k0))), rs.Pos)
+		hyp := Forall([]*Term{jq}, Implies(And(Le(Int(1), jq), Le(jq, Add(k0, Int(1)))), agree(m1, p1, m2, p2, jq)))
+		vc.Oblige("staterec."+rs.Name, "step", Implies(And(Le(Int(0), k0), hyp, Eq(app(m1, p1, k0), app(m2, p2, k0))),
+			Eq(app(m1, p1, Add(k0, Int(1))), app(m2, p2, Add(k0, Int(1))))), rs.Pos)
+		a1, a2, kq := Sym("M1!q", SMem), Sym("M2!q", SMem), Sym("k!q", SInt)
+		q1, q2 := mkParams("a", true), mkParams("b", true)
+		jq2 := Sym("j2!q", SInt)
+		vars := append(append([]*Term{a1, a2}, append(q1, q2...)...), kq)
+		vc.Assume(Forall(vars,
+			Implies(Forall([]*Term{jq2}, Implies(And(Le(Int(1), jq2), Le(jq2, kq)), agree(a1, q1, a2, q2, jq2))), Eq(app(a1, q1, kq), app(a2, q2, kq))),
+			app(a1, q1, kq), app(a2, q2, kq)))
+	}
 	for _, c := range fc.Requires {
 		vc.Assume(ctx.fact(c.E))
 	}
